@@ -175,3 +175,56 @@ Theorem C07_source_load_store : forall read_ok,
    run_store fn_shardedMapOf_Store = Some [("Write(bgCtx, key, val)", [VStr "value"])]).
 Proof. intros; split; [exact (tie_load _)|exact tie_store]. Qed.
 Print Assumptions C07_source_load_store.
+
+(* ---- the SkipRead flag and what a caller reads out of entries and expiry errors ---- *)
+From Cache Require Import TieCtx TieAccessors.
+
+(* SkipRead(ctx) is the innermost binding of skipReadCtxKey{} in the context chain, whatever else is layered around it *)
+Theorem C07_source_skip_read_flag : forall bs,
+  run_ctx_fn fn_SkipRead bs = Some (VB (skip_flag bs)) /\
+  run_ctx_fn fn_WithSkipRead bs = Some (enc_ctx (("skipReadCtxKey", VB true) :: bs)) /\
+  run_ctx_fn fn_withoutSkipRead bs = Some (enc_ctx (("skipReadCtxKey", VB false) :: bs)).
+Proof. intros bs. split; [exact (tie_skip_read bs)|exact (tie_with_skip_read bs)]. Qed.
+Print Assumptions C07_source_skip_read_flag.
+
+Theorem C07_skip_read_round_trip : forall outer bs, other_keys outer = true ->
+  skip_flag (outer ++ ("skipReadCtxKey", VB true) :: bs)%list = true /\
+  skip_flag (outer ++ ("skipReadCtxKey", VB false) :: bs)%list = false /\
+  skip_flag outer = false.
+Proof. exact skip_read_round_trip. Qed.
+Print Assumptions C07_skip_read_round_trip.
+
+(* the error of an expired entry: errors.Is(err, ErrExpired), Value() = the stored value, ExpiredAt() = the stored instant *)
+Theorem C07_source_expired_error : forall at_,
+  let lv := [("e.entry.V", VPtr true "V"); ("e.expiredAt", VZ at_)] in
+  run_acc fn_errExpired_Value [VPtr true "e"] lv = Some [VPtr true "V"] /\
+  run_acc fn_errExpired_ExpiredAt [VPtr true "e"] lv = Some [VRec "tsTime" [("ns", VZ at_)]] /\
+  run_acc fn_errExpired_Error [VPtr true "e"] lv = Some [VStr "expired cache item"] /\
+  run_acc fn_errExpired_Is [VPtr true "e"; VPtr true "err"] lv =
+    Some [VRec "errors.Is" [("err", VPtr true "err"); ("target", VStr "expired cache item")]] /\
+  run_acc fn_errExpiredOf_Value [VPtr true "e"] lv = Some [VPtr true "V"] /\
+  run_acc fn_errExpiredOf_ExpiredAt [VPtr true "e"] lv = Some [VRec "tsTime" [("ns", VZ at_)]] /\
+  run_acc fn_errExpiredOf_Error [VPtr true "e"] lv = Some [VStr "expired cache item"] /\
+  run_acc fn_errExpiredOf_Is [VPtr true "e"; VPtr true "err"] lv =
+    Some [VRec "errors.Is" [("err", VPtr true "err"); ("target", VStr "expired cache item")]].
+Proof. exact tie_err_expired. Qed.
+Print Assumptions C07_source_expired_error.
+
+(* what a Walk callback reads: Key() = K, Value() = V, ExpireAt() = tsTime(E) *)
+Theorem C07_source_entry_accessors : forall E,
+  let lv := [("e.K", VPtr true "K"); ("e.V", VPtr true "V"); ("e.E", VZ E)] in
+  run_acc fn_TraitEntry_Key [VPtr true "e"] lv = Some [VPtr true "K"] /\
+  run_acc fn_TraitEntry_Value [VPtr true "e"] lv = Some [VPtr true "V"] /\
+  run_acc fn_TraitEntry_ExpireAt [VPtr true "e"] lv = Some [VRec "tsTime" [("ns", VZ E)]] /\
+  run_acc fn_TraitEntryOf_Key [VPtr true "e"] lv = Some [VPtr true "K"] /\
+  run_acc fn_TraitEntryOf_Value [VPtr true "e"] lv = Some [VPtr true "V"] /\
+  run_acc fn_TraitEntryOf_ExpireAt [VPtr true "e"] lv = Some [VRec "tsTime" [("ns", VZ E)]].
+Proof. exact tie_entry_accessors. Qed.
+Print Assumptions C07_source_entry_accessors.
+
+Theorem C07_source_noop :
+  run_acc fn_NoOp_Read [VPtr true "ctx"; VPtr true "key"] [] = Some [VNil; VStr "missing cache item"] /\
+  run_acc fn_NoOp_Write [VPtr true "ctx"; VPtr true "key"; VPtr true "v"] [] = Some [VNil] /\
+  run_acc fn_NoOp_Delete [VPtr true "ctx"; VPtr true "key"] [] = Some [VStr "missing cache item"].
+Proof. exact tie_noop. Qed.
+Print Assumptions C07_source_noop.
